@@ -31,7 +31,10 @@ class IdRules:
             cap = fx.tu_constants('id_manager.cpp').get('dbgroup::thread::kMaxThreadNum')
             if len(words) == 1 and cap:
                 w = {'char': 8, 'short': 16, 'int': 32, 'long': 64, 'long long': 64}[_re.search(r'atomic<unsigned (long long|long|int|short|char)>', words[0]['type']['ct']).group(1)]
-                if int(words[0]['extent']) * w >= cap:
+                if int(words[0]['extent']) >= cap:
+                    # one atomic word per ID (zero = free, non-zero = reserved): the flag rules apply, with "true" read as "non-zero"
+                    arr = words
+                elif int(words[0]['extent']) * w >= cap:
                     self.bitmap, arr = w, words
                     self.capacity = int(cap)
         if len(arr) != 1:
@@ -378,10 +381,15 @@ class IdRules:
                     why = 'CAS false->true succeeded'
                 else:
                     t = cond_truth(p.conds, last['result'])
-                    good = is_const(last['value']) and last['value'][1] == 1 and t is False
+                    v_ = self.unext(last['value'])
+                    nonzero = (is_const(v_) and v_[1] != 0) or (isinstance(v_, tuple) and v_ and v_[0] == 'op' and v_[1] == '|' and
+                                                                any(is_const(self.unext(x)) and self.unext(x)[1] != 0 for x in v_[2:4]))
+                    good = nonzero and t is False
+                    if not nonzero:
+                        why_v = 'the value written by the claim (%s) is not known to be non-zero: a zero leaves the slot reading as free' % show(v_)[:60]
                     why = 'old value of the %s tested false on this path' % last['op']
             sink.emit('C05.CLAIM', 'ok' if good else 'violated', 'SetID(%s) only after a successful test-and-set of that flag' % self.norm(st['args'][0]), '%s:%s' % (f['file'], st['line']),
-                      why if good else 'the ID passed to SetID was not claimed by an RMW whose old value was found false (last flag write: %s)' % (
+                      why if good else locals().get('why_v') or 'the ID passed to SetID was not claimed by an RMW whose old value was found false (last flag write: %s)' % (
                           '%s on flag %s' % (last['op'], show(last['obj'][2])[:60]) if last else 'none'))
             # stability: reached only when the thread has no ID yet
             hasid = [e['result'] for e in p.events if e['kind'] == 'call' and e.get('name') == 'HasID' and e['seq'] < st['seq']]
@@ -543,6 +551,17 @@ class IdRules:
                 if e['op'] == 'wait':
                     sink.bad('C14.PROBE', 'claim loop blocks on a single reservation flag', '%s:%s' % (f['file'], e['line']),
                              'atomic wait on flag %s: the thread is woken only by the holder of that slot, although another ID may have been freed' % self.norm(e['obj'][2]))
+        # a claimer that finds the table full may pause between two looks at it, but for a time bounded by a constant: a pause that
+        # grows with the number of probes (exponential back-off on the probe counter) keeps the waiter asleep long after a holder exited
+        for p in res['paths']:
+            for e in p.events:
+                if e['kind'] == 'call' and (e.get('name') or '').endswith(('sleep_for', 'sleep_until')):
+                    txt = ' '.join(show(a) for a in (e.get('args') or ()))
+                    if '~' in txt and not any(k in txt for k in ('min(', 'clamp(', 'std::min', 'std::clamp')):
+                        sink.bad('C14.PROBE', 'the pause of a waiting claimer is bounded by a constant', '%s:%s' % (f['file'], e['line']),
+                                 'the sleep time %s depends on a variable carried around the probe loop: the time between two looks at the table is unbounded, a waiter '
+                                 'does not obtain an ID when a holder exits' % txt[:90])
+                        break
         # neither the claim loop nor the exit path may block on a lock: a claimer that spins while holding it keeps every
         # exiting thread from giving its ID back
         for g in (f, self.dtor):
@@ -603,7 +622,35 @@ def analyse(fx, eng):
     k = 'ids'
     if k not in _cache:
         sink = Sink()
-        r = IdRules(fx, eng, sink)
+        try:
+            r = IdRules(fx, eng, sink)
+        except AnalysisBroken as ex:
+            if 'reservation array' not in str(ex):
+                raise
+            # no namespace-scope table: is it a function-local static (construct on first use)?  That one is *destroyed* by exit()
+            # while other threads may still run and start: after that point every slot of the freed table reads as free
+            hit = None
+            for f in fx.functions.values():
+                if f.get('tu') != 'id_manager.cpp' or not f.get('blocks'):
+                    continue
+                try:
+                    ps = eng.paths(f)['paths']
+                except AnalysisBroken:
+                    continue
+                for p in ps:
+                    for e in p.events:
+                        if e['kind'] == 'decl' and e['storage'] == 'static' and 'atomic' in (e['type'].get('ct') or '') and \
+                                ('vector' in e['type']['ct'] or 'unique_ptr' in e['type']['ct'] or 'deque' in e['type']['ct']):
+                            hit = (f, e)
+            if hit is None:
+                raise
+            f, e = hit
+            sink.bad('C05.INIT', 'the reservation table exists, all free, before any code runs and until the process ends', '%s:%s' % (f['file'], e.get('line')),
+                     'the table is the function-local static `%s` of type %s: it is destroyed during exit() while other threads still hold IDs and new threads can still start; '
+                     'a thread that starts after that point reads freed memory as "free" and is handed an ID a live thread holds' % (e['name'], e['type']['ct']))
+            sink.broken = str(ex)
+            _cache[k] = (None, sink)
+            return _cache[k]
         r.idiom_guard()
         r.c15()
         r.c05()
